@@ -50,6 +50,11 @@ THM_MODULES = THM_MODULES + [m for m in _C08.C07_DERIVED_MODULES if m not in THM
 REQUIRED = REQUIRED + [t for t in _C08.C07_DERIVED_REQUIRED if t not in REQUIRED]
 
 
+def on_build_failure(output):
+    from verifkit.props import C08
+    return C08.on_build_failure(output)
+
+
 def prepare(seed, tier):
     from verifkit.props import C08
     C08.prepare(seed, tier)          # regenerates the crate of derived types (harness/dgen) from the seed
